@@ -21,12 +21,14 @@ META = dict(
                'refuted = recorded finding, overflow refusal proved); MJD calendar part by a kernel sweep of '
                'all 109573 days 1900..2199 on primitive floats. The models are compared with the real '
                'functions (exhaustive 1-byte domains, boundary values, seeded random inputs, bit-exact floats) '
-               'on every run. Partial: the sub-day (microsecond) MJD arithmetic has no theorem — oracle only.',
+               'on every run. Partial: the sub-day (microsecond) MJD bound is proved over the reals under four named '
+               'premises about binary64 rounding and repr/float (C09_mjd_microsecond_bound_partial); the premises '
+               'themselves are checked only through the bit-exact float model and the oracle.',
     level_note='Trusted: Coq kernel + vm_compute incl. primitive floats/ints (PrimFloat, Uint63) for the MJD '
                'sweep; Flocq (binary64 bit layout; pulls the stdlib real-number/classical axioms listed by '
                'Print Assumptions); CPython int/bytes/struct/datetime semantics as mirrored by the models and '
                'checked by correspondence; repr()/float() text conversion in mjd_to_date is an input (oracle).',
-    partial='MJD fractional-day float arithmetic (within 1 us): implementation-level oracle only',
+    partial='MJD fractional-day bound: real-number theorem under named IEEE/repr premises; premises not proved',
     rule='one case = one call of a utils function; non-trivial = distinct (function, arguments) '
          'whose result is not an error',
     trusted=['Flocq 4 IEEE754.Bits (binary64 layout)', 'Coq primitive floats and 63-bit integers (MJD sweep)'],
